@@ -172,7 +172,11 @@ fn check_run(r: &Report, sec: &str, p: &Pair, eff: &[Eff], start_ns: i128, forwa
             return;
         }
         if !e.changing && !e.recorded {
-            r.viol(sec, &format!("{}/yields-rule-instant-where-nothing-changes{}", dir, f7(eff, cand[c])), case(), format!("item {} at {}", n, vf::conv::fmt_ns(t)));
+            // input class: the first rule-generated instant after the recorded
+            // transitions (the hand-over), as opposed to any later rule instant
+            let first_rule = cand[c] > 0 && eff[cand[c] - 1].recorded;
+            let k = if first_rule && f7(eff, cand[c]).is_empty() { ":first-rule-instant-after-the-recorded-transitions" } else { "" };
+            r.viol(sec, &format!("{}/yields-rule-instant-where-nothing-changes{}{}", dir, k, f7(eff, cand[c])), case(), format!("item {} at {}", n, vf::conv::fmt_ns(t)));
             return;
         }
         let m = info(e);
@@ -223,21 +227,50 @@ fn check_run(r: &Report, sec: &str, p: &Pair, eff: &[Eff], start_ns: i128, forwa
     }
 }
 
+/// Footers already walked in full, per origin. The rule-generated part of a
+/// zone (everything after the hand-over from the recorded transitions) is a
+/// function of the footer string alone, in the model and in jiff (the same
+/// `PosixTimeZone` code evaluates it, whatever the zone's recorded history).
+/// So in the thorough tier the walk over *every* rule year up to 9999 is done
+/// for the first zone of each (origin, footer) class and for every
+/// representative, synthetic and POSIX zone; the other members of a class get
+/// all their recorded transitions, the hand-over and the windows of rule years
+/// the quick tier uses. Merged states have the same futures; what differs
+/// between members (history, hand-over index) is still probed for each.
+static FOOTERS_WALKED: std::sync::Mutex<Option<std::collections::HashSet<(String, String)>>> = std::sync::Mutex::new(None);
+
+fn first_of_footer_class(p: &Pair) -> bool {
+    if p.origin == "posix" {
+        // generated strings: every 64th one (by length of the string)
+        return p.name.len() % 64 == 0;
+    }
+    if p.origin.starts_with("synth") || zones::REP.contains(&p.name.as_str()) {
+        return true;
+    }
+    let Some(f) = p.model.footer.clone() else { return true };
+    let mut g = FOOTERS_WALKED.lock().unwrap();
+    g.get_or_insert_with(Default::default).insert((p.origin.clone(), f))
+}
+
 fn check_zone(r: &Report, sec: &str, p: &Pair) -> (u64, u64) {
     let eff = p.model.effective();
     let quick = r.quick();
+    let full_walk = !quick && first_of_footer_class(p);
+    if !quick {
+        r.count(if full_walk { "zones_walked_over_every_rule_year" } else { "zones_walked_over_rule_year_windows(footer class already walked in full)" }, 1);
+    }
     let mut runs = 0u64;
     let mut nitems = 0u64;
     const CAP: usize = 40_000;
     // to exhaustion from the limits and the epoch
     let mut ex: Vec<(Timestamp, bool)> = vec![(Timestamp::MIN, true), (Timestamp::MAX, false), (Timestamp::MAX, true), (Timestamp::MIN, false)];
     // POSIX strings run to exhaustion over the last / first millennium only
-    // (thorough: every 16th string, by length of the string, over the whole range)
-    if p.origin == "posix" && (quick || p.name.len() % 16 != 0) {
+    // (thorough: every 64th string, by length of the string, over the whole range)
+    if (p.origin == "posix" && quick) || (!quick && !full_walk) {
         ex[0].0 = Timestamp::from_second(221_845_392_000).unwrap(); // 9000-01-01
         ex[1].0 = Timestamp::from_second(-346_149_504_000).unwrap(); // ~ -9000
     }
-    if !quick {
+    if full_walk {
         ex.push((Timestamp::UNIX_EPOCH, true));
         ex.push((Timestamp::UNIX_EPOCH, false));
     }
@@ -261,7 +294,7 @@ fn check_zone(r: &Report, sec: &str, p: &Pair) -> (u64, u64) {
             return true;
         }
         let y = e.rule_year;
-        if quick {
+        if quick || !full_walk {
             // a window of rule years after the last recorded one, a century boundary, the end of the range
             (2007..2012).contains(&y) || (2037..2041).contains(&y) || (2099..2101).contains(&y) || y >= 9997 || y <= -9997
         } else {
